@@ -195,6 +195,14 @@ impl Check for C01 {
         prop_oneof![tier.pick(2000, 3000) => pair_strategy(tier).prop_map(Case::Pair), 1 => long_haul].boxed()
     }
 
+    fn extra(&self, tier: Tier, seed: u64) -> ExtraResult {
+        if tier != Tier::Thorough {
+            return ExtraResult::default();
+        }
+        // coverage-guided search over the same scenario space with the same oracle (harness/fuzz, target pair_oracles)
+        crate::props::pairfuzz::pair_fuzz_extra("C01", seed, 400_000, &|sc| self.run(&Case::Pair(sc.clone())), &|sc| serde_json::to_value(Case::Pair(sc.clone())).unwrap_or_default())
+    }
+
     fn cases(&self, tier: Tier) -> u64 {
         tier.pick(12_000, 600_000)
     }
